@@ -405,6 +405,7 @@ func (w *World) checkPortAccessor(c *Ctx, rule, label string, fn *ssa.Function, 
 func c03URIDefaults(c *Ctx) {
 	w := c.w
 	rule := "uri-defaults"
+	ruleKVFind(c, rule, "(*SIPURI).GetParameter")
 	if gt := c.fn(rule, "(*SIPURI).GetTransport"); gt != nil {
 		gps := w.callsIn(gt, "(*SIPURI).GetParameter")
 		if len(gps) != 1 {
@@ -493,23 +494,18 @@ func c03ListenerMatch(c *Ctx) {
 	nListener := 0
 	i := 0
 	for _, r := range returnsUnder(f, nil) {
-		for _, v := range phiLeaves(r.Results[0]) {
-			b, isB := constBool(v)
-			if !isB {
-				c.undecided(rule, "isMyMessage/return-shape", w.ipos(r), "isMyMessage returns a non-constant: "+w.termKey(v))
-				continue
-			}
-			if !b {
+		for _, bc := range boolCases(r, 0) {
+			if b, isB := constBool(bc.Leaf); isB && !b {
 				continue
 			}
 			i++
 			key := fmt.Sprintf("isMyMessage/return-true#%d", i)
 			switch {
-			case w.requires(f, r, absM, true):
+			case w.holdsWhenTrue(f, bc, absM, true):
 				c.ok(rule, key, w.ipos(r), "true because the absolute URI matches a service name")
-			case w.requires(f, r, sipM, true):
+			case w.holdsWhenTrue(f, bc, sipM, true):
 				c.ok(rule, key, w.ipos(r), "true because user@host matches a service name")
-			case w.requires(f, r, hostEq, true) && w.requires(f, r, portEq, true):
+			case w.holdsWhenTrue(f, bc, hostEq, true) && w.holdsWhenTrue(f, bc, portEq, true):
 				nListener++
 				c.ok(rule, key, w.ipos(r), "true because Request-URI host and port equal the receiving listener's address and port", "guards: host == ReceivedFrom.GetAddress() && GetPort() == ReceivedFrom.GetPort()")
 			default:
